@@ -221,23 +221,6 @@ def o_config(spec) -> dict:
     return cur
 
 
-def plain_inherit(spec) -> bool:
-    """a plain (non-BaseConfig) Config that derives from another Config (listed finding C09/plain-config-inherit)"""
-    return any(lv["config"] is not None and lv["config"]["inherit"] is not None and lv["config"]["plain"]
-               for lv in spec["levels"])
-
-
-def o_config_as_get_config(spec) -> dict:
-    """The reading of CodeBuilder.get_config for a plain Config class: only the options written in its own body count."""
-    last = None
-    for lv in spec["levels"]:
-        if lv["config"] is not None:
-            last = lv["config"]
-    if last is not None and last["plain"]:
-        return {k: (last[k] if last[k] is not None else DEFAULT_CFG[k]) for k in ("aliases", "allow", "forbid")}
-    return o_config(spec)
-
-
 def o_alias(spec, f):
     """alias: field metadata over an Annotated Alias over Config.aliases; None if the field has none."""
     if f["meta"] is not None:
@@ -270,12 +253,8 @@ def o_default(f):
     return {"int": DEFAULT, "none": None}[f["dflt"]]
 
 
-def o_keymodel(spec, d: dict, cfg=None):
-    """("inst", [(field, value)]) | ("missing", field) | ("extra", [keys in input order]).
-    cfg: use these options instead of the ones the class sees (only to classify the listed finding)."""
-    if cfg is not None:
-        spec = dict(spec, levels=[dict(lv, config=None) for lv in spec["levels"][:-1]]
-                    + [dict(spec["levels"][-1], config=dict(cfg, plain=False, inherit=None))])
+def o_keymodel(spec, d: dict):
+    """("inst", [(field, value)]) | ("missing", field) | ("extra", [keys in input order])"""
     acc = o_accepted(spec)
     extra = [k for k in d if k not in acc]
     if o_config(spec)["forbid"] and extra:
@@ -902,8 +881,8 @@ def nested_stream(ctx, rng, k4_ok):
         ncands = {k for f in o_fields(spec) if f["ty"] == "nested" for k in o_candidates(spec, f)}
         ctx.hist("nested", f"outer fields={len(o_fields(spec))} nested={sum(1 for f in o_fields(spec) if f['ty'] == 'nested')} "
                            f"inner fields={len(o_fields(inner))}")
-        c_outer = f"(builder_class_of {c_spec(spec)} None)"
-        c_inner = f"(builder_class_of {c_spec(inner)} None)"
+        c_outer = f"(class_of {c_spec(spec)} None)"
+        c_inner = f"(class_of {c_spec(inner)} None)"
         nt = "[" + "; ".join(f"({coq_str(f['name'])}, n{ci})" for f in o_fields(spec) if f["ty"] == "nested") + "]"
         idfl = "[" + "; ".join(f"({coq_str(f['name'])}, {c_defaults(inner)})" for f in o_fields(spec) if f["ty"] == "nested") + "]"
         dtxt = f"Definition n{ci} : cls := {c_inner}.\nDefinition c{ci} : cls := {c_outer}."
@@ -998,8 +977,7 @@ def nested_stream(ctx, rng, k4_ok):
 # ---------------------------------------------------------------------------
 
 THEOREMS = ["K4_precedence", "K4_key_plan", "K4_allowed_keys", "C09_impl_is_code", "C09_keys", "C09_keys_hier",
-            "C09_keys_hier_py_partial", "C09_keys_hier_py_refuted", "C09_nearest_declaration", "C09_nearest_config",
-            "C09_builder_config_partial", "C09_builder_config_refuted", "C09_fields_unique", "C09_alias_from_sources",
+            "C09_nearest_declaration", "C09_nearest_config", "C09_get_config", "C09_builder_config", "C09_fields_unique", "C09_alias_from_sources",
             "C09_mro_chain", "C09_mro_roots", "C09_own_view_finished", "C09_own_view_raw", "C09_nested", "C09_nested_inner_options",
             "C09_field_key", "C09_outcome", "C09_alias_wins", "C09_fallback", "C09_accepted_covers_reads",
             "C09_reads_allowed", "C09_extra_members", "C09_extra_exact", "C09_ignored", "C09_forbidden_reported"]
@@ -1147,8 +1125,6 @@ def run(ctx: vlib.Ctx):
         nullable = nullable_class(spec)
         ctx.hist("values", "ints and None" if nullable else "ints")
         coq_defs.append(f"Definition c{ci} : list level := {c_spec(spec)}.")
-        pin = plain_inherit(spec)
-        builder_cfg_py = o_config_as_get_config(spec) if pin else None
         dfl = c_defaults(spec)
         dicts = []
         for ks in subsets(keys, rng, sub_max):
@@ -1180,8 +1156,6 @@ def run(ctx: vlib.Ctx):
                 if obs != exp:
                     n_mismatch_oracle += 1
                     kind = "key-resolution"
-                    if pin and obs == o_keymodel(spec, d, cfg=builder_cfg_py):
-                        kind = "plain-config-inherit"
                     ctx.fail(f"{ename}({dd!r}) -> {obs!r}, KEYMODEL says {exp!r}",
                              replay_of(spec, src, ename, dd, obs, exp),
                              {"kind": kind, "observed": obs[0], "expected": exp[0]})
@@ -1194,15 +1168,14 @@ def run(ctx: vlib.Ctx):
         drop_module(mod)
 
     # ---- correspondence: Coq models vs the real implementation, same cases
-    ok_impl = ("fun c => match c with (h, dk, dfl, d, o) => match impl_from_dict (builder_class_of h dk) d with "
+    ok_impl = ("fun c => match c with (h, dk, dfl, d, o) => match impl_from_hier h dk d with "
                "Ok r => observation_eqb (observe dfl r) o | Raise _ => false end end")
-    # the reference (Python attribute semantics for Config) is compared outside the listed finding's corner
     ok_ref = ("fun c => match c with (h, dk, dfl, d, o) => "
-              "if no_plain_inherit h then observation_eqb (observe dfl (keymodel (class_of h dk) d)) o else true end")
-    ok_both = ("fun c => match c with (h, dk, dfl, d, o) => match impl_from_dict (builder_class_of h dk) d with "
+              "observation_eqb (observe dfl (keymodel (class_of h dk) d)) o end")
+    ok_both = ("fun c => match c with (h, dk, dfl, d, o) => match impl_from_hier h dk d with "
                "Ok r => observation_eqb (observe dfl r) o | Raise _ => false end "
-               "&& (if no_plain_inherit h then observation_eqb (observe dfl (keymodel (class_of h dk) d)) o else true) end")
-    IMPL = ("KeyModel KeyImpl PyK_alias", "From VerifGen Require Import K4.", ["theories/KeyImpl.vo"])
+               "&& observation_eqb (observe dfl (keymodel (class_of h dk) d)) o end")
+    IMPL = ("KeyModel KeyImpl KeyProofs KeyCfg PyK_alias", "From VerifGen Require Import K4.", ["theories/KeyCfg.vo"])
     REF = ("KeyModel", "", ["theories/KeyModel.vo"])
 
     def report(name, bad, log, n):
@@ -1243,10 +1216,16 @@ def run(ctx: vlib.Ctx):
     ctx.notes.append(f"oracle mismatches (incl. listed findings): {n_mismatch_oracle}")
 
     # ---- the modelled Python / dataclasses semantics and CodeBuilder's own view of the classes
-    okv = ("fun c => match c with (h, hc, fs, g) => view_eqb (decl_view (collect h)) fs && cfg_eqb (builder_cfg hc) g end")
-    bad, log = coq_check("c09_src", REF, src_items, okv, ctx,
+    okv = ("fun c => match c with (h, hc, fs, g) => view_eqb (decl_view (collect h)) fs && cfg_eqb (nearest_cfg hc) g end")
+    src_model = REF
+    if k4_ok:
+        # the Config also through the translated get_config run on the class objects of the hierarchy
+        okv = ("fun c => match c with (h, hc, fs, g) => view_eqb (decl_view (collect h)) fs && cfg_eqb (nearest_cfg hc) g "
+               "&& match impl_cfg hc with Ok g' => cfg_eqb g' g | Raise _ => false end end")
+        src_model = IMPL
+    bad, log = coq_check("c09_src", src_model, src_items, okv, ctx,
                          ctype="list level * list level * list (string * option string * bool) * cfg")
-    nm = "collect/builder_cfg-vs-CodeBuilder.dataclass_fields/get_config"
+    nm = "collect/nearest_cfg/impl_cfg(K4)-vs-CodeBuilder.dataclass_fields/get_config"
     if bad is None:
         ctx.correspondence(nm, len(src_items), -1, log)
         ctx.not_shown("correspondence " + nm, log)
